@@ -56,6 +56,105 @@ void *memset(void *dst, int c, size_t n) {
   return dst;
 }
 
+
+/* ---------------------------------------------------------------------------------------------------
+ * Arithmetic lemmas.  The size reasoning of carquet_lz4_compress (divisions by 255, products 255*k) is
+ * out of reach of the SAT back end inside the big function, and SMT back ends cannot be used on
+ * contract-instrumented programs.  So the pure arithmetic is factored into ghost functions with empty
+ * bodies: in the compressor jobs their calls (inserted at the overlay hooks) are replaced by their
+ * contracts (requires CHECKED at the call site on the real program state, ensures then available); the
+ * contracts themselves are proved for ALL arguments by z3/cvc5 in the loop-free jobs c09_lz4_lemma_*
+ * (same REQ/ENS macros, harness-is-contract).  M255(x) = 255*x without a multiplier.
+ * --------------------------------------------------------------------------------------------------- */
+#define CQV_SZ ((size_t)1 << 40)
+#define M255(x) ((((size_t)(x)) << 8) - (size_t)(x))
+#define BOUND_FACTS(n, B) ((B) >= (n) + 16 && (B) <= (n) + ((n) >> 7) + 16 && M255((B) - (n) - 16) <= (n) && M255((B) - (n) - 15) > (n))
+#define SIZE_INV(o, a) ((o) <= (a) || M255((o) - (a)) <= (a))
+/* e extension bytes (0 when v - c + 15 < 15) encode v: e-1 bytes of 255 and a last byte r < 255 */
+#define EXT_EXACT(v, c, e, r) (((v) < (c) && (e) == 0) || ((v) >= (c) && (e) >= 1 && (e) <= (v) && (r) < 255 && M255((e) - 1) + (r) == (v) - (c)))
+
+/* space for one sequence: T = output offset of the token, a = anchor offset, l literals, m match bytes */
+#define LEM_SPACE_REQ(n, cap, B, a, l, T, m, max_out) \
+  ((n) <= CQV_SZ && (cap) <= CQV_SZ && BOUND_FACTS(n, B) && (cap) >= (B) && (a) <= (n) && (l) <= (n) && (m) <= (n) && (m) >= 4 && \
+   (a) + (l) + (m) + 12 <= (n) && SIZE_INV(T, a) && (max_out) == 1 + ((l) / 255) + (l) + 2 + ((m) / 255))
+#define LEM_SPACE_ENS(n, cap, B, a, l, T, m, max_out) \
+  ((T) + (max_out) + 2 + (m) <= (cap) && (T) + (l) + 8 <= (cap) && (T) + (max_out) <= (cap))
+void cqv_lemma_space(size_t n, size_t cap, size_t B, size_t a, size_t l, size_t T, size_t m, size_t max_out)
+__CPROVER_requires(LEM_SPACE_REQ(n, cap, B, a, l, T, m, max_out))
+__CPROVER_assigns()
+__CPROVER_ensures(LEM_SPACE_ENS(n, cap, B, a, l, T, m, max_out))
+{}
+
+/* k bytes of 255 emitted so far and remainder rem < 255: k <= v/255 (same v/255 the space check uses) */
+#define LEM_EXT_REQ(v, c, k, rem) ((v) <= 2 * CQV_SZ && ((c) == 15 || (c) == 19) && (v) >= (c) && (k) <= (v) && (rem) < 255 && M255(k) + (rem) == (v) - (c))
+#define LEM_EXT_ENS(v, c, k, rem) ((k) <= (v) / 255)
+void cqv_lemma_ext(size_t v, size_t c, size_t k, size_t rem)
+__CPROVER_requires(LEM_EXT_REQ(v, c, k, rem))
+__CPROVER_assigns()
+__CPROVER_ensures(LEM_EXT_ENS(v, c, k, rem))
+{}
+
+/* the size invariant o <= a + a/255 survives one sequence of exactly 1 + e1 + l + 2 + e2 bytes */
+#define LEM_INV_REQ(a, l, m, T, e1, r1, e2, r2, o2) \
+  ((a) <= CQV_SZ && (l) <= CQV_SZ && (m) <= CQV_SZ && (m) >= 4 && (T) <= 2 * CQV_SZ && SIZE_INV(T, a) && \
+   EXT_EXACT(l, 15, e1, r1) && EXT_EXACT(m, 19, e2, r2) && (o2) == (T) + 1 + (e1) + (l) + 2 + (e2))
+#define LEM_INV_ENS(a, l, m, T, e1, r1, e2, r2, o2) (SIZE_INV(o2, (a) + (l) + (m)))
+void cqv_lemma_inv(size_t a, size_t l, size_t m, size_t T, size_t e1, size_t r1, size_t e2, size_t r2, size_t o2)
+__CPROVER_requires(LEM_INV_REQ(a, l, m, T, e1, r1, e2, r2, o2))
+__CPROVER_assigns()
+__CPROVER_ensures(LEM_INV_ENS(a, l, m, T, e1, r1, e2, r2, o2))
+{}
+
+/* space for the last literal run: o = output offset, q = the amount the code checks for */
+#define LEM_LAST_REQ(n, cap, B, a, o, q) \
+  ((n) <= CQV_SZ && (cap) <= CQV_SZ && BOUND_FACTS(n, B) && (cap) >= (B) && (a) + 12 <= (n) && SIZE_INV(o, a) && \
+   (q) == 1 + (((n) - (a)) / 255) + ((n) - (a)))
+#define LEM_LAST_ENS(n, cap, B, a, o, q) ((o) + (q) + 1 <= (cap) && (o) + (q) <= (cap))
+void cqv_lemma_last(size_t n, size_t cap, size_t B, size_t a, size_t o, size_t q)
+__CPROVER_requires(LEM_LAST_REQ(n, cap, B, a, o, q))
+__CPROVER_assigns()
+__CPROVER_ensures(LEM_LAST_ENS(n, cap, B, a, o, q))
+{}
+
+/* final size: of = o + 1 + e + (n - a)  is at most  n + n/255 + 16 */
+#define LEM_POST_REQ(n, a, o, e, r4, of) \
+  ((n) <= CQV_SZ && (a) + 12 <= (n) && (o) <= 2 * CQV_SZ && SIZE_INV(o, a) && EXT_EXACT((n) - (a), 15, e, r4) && (of) == (o) + 1 + (e) + ((n) - (a)))
+#define LEM_POST_ENS(n, a, o, e, r4, of) ((of) >= 1 && ((of) <= (n) + 16 || M255((of) - (n) - 16) <= (n)))
+void cqv_lemma_post(size_t n, size_t a, size_t o, size_t e, size_t r4, size_t of)
+__CPROVER_requires(LEM_POST_REQ(n, a, o, e, r4, of))
+__CPROVER_assigns()
+__CPROVER_ensures(LEM_POST_ENS(n, a, o, e, r4, of))
+{}
+
+/* a capacity of at least n + n/255 + 16 (division-free form used in the contract) is >= the code's bound B */
+#define LEM_BOUND_REQ(n, cap, B) ((n) <= CQV_SZ && (cap) <= CQV_SZ && BOUND_FACTS(n, B))
+#define LEM_BOUND_ENS(n, cap, B) (((cap) >= (n) + 16 && M255((cap) - (n) - 15) > (n)) ==> (cap) >= (B))
+void cqv_lemma_bound(size_t n, size_t cap, size_t B)
+__CPROVER_requires(LEM_BOUND_REQ(n, cap, B))
+__CPROVER_assigns()
+__CPROVER_ensures(LEM_BOUND_ENS(n, cap, B))
+{}
+#define CQV_LZ4_BOUND cqv_lemma_bound(src_size, dst_capacity, max_output);
+
+/* lemma calls and ghost bookkeeping at the overlay hooks of carquet_lz4_compress */
+#define CQV_LZ4_SPACE \
+  cqv_lemma_space(src_size, dst_capacity, max_output, (size_t)(anchor - src), lit_len, (size_t)(op - dst), match_len, max_out);
+#define CQV_LZ4_SEQ_BEGIN \
+  size_t cqv_r1 = 0, cqv_r2 = 0; const size_t cqv_T = (size_t)(op - dst);
+#define CQV_LZ4_LIT_EXT \
+  cqv_lemma_ext(lit_len, 15, (size_t)(op - token - 1), rem); cqv_r1 = rem;
+#define CQV_LZ4_MATCH_EXT \
+  cqv_lemma_ext(match_len, 19, (size_t)(op - cqv_op_m), ml); cqv_r2 = ml;
+#define CQV_LZ4_INV_DONE \
+  cqv_lemma_inv((size_t)(anchor - src), lit_len, match_len, cqv_T, cqv_e1, cqv_r1, (size_t)(op - cqv_op_m), cqv_r2, (size_t)(op - dst));
+#define CQV_LZ4_LAST_SPACE \
+  size_t cqv_r4 = 0; const size_t cqv_o_last = (size_t)(op - dst); \
+  cqv_lemma_last(src_size, dst_capacity, max_output, (size_t)(anchor - src), cqv_o_last, 1 + (last_run / 255) + last_run);
+#define CQV_LZ4_LAST_EXT \
+  cqv_lemma_ext(last_run, 15, (size_t)(op - cqv_op_l), rem); cqv_r4 = rem;
+#define CQV_LZ4_LAST_END \
+  cqv_lemma_post(src_size, (size_t)(anchor - src), cqv_o_last, cqv_e4, cqv_r4, (size_t)(op - dst));
+
 /* C10 (compressor side, structural): every sequence with a match obeys the format's field ranges and
  * end-of-block rules; the final literal run is long enough.  Checked in the real function at the hooks
  * placed by contracts/lz4.ovl (CQV_LZ4_SEQ_END just before `ip += match_len`, CQV_LZ4_LAST_BEGIN before
@@ -64,7 +163,8 @@ void *memset(void *dst, int c, size_t n) {
   __CPROVER_assert(offset >= 1 && offset <= 65535 && offset <= (size_t)(ip - src), "lz4c: offset in 1..65535 and inside the data already covered"); \
   __CPROVER_assert(match_len >= LZ4_SPEC_MINMATCH, "lz4c: match length >= minmatch"); \
   __CPROVER_assert(lz4_spec_match_allowed(src_size, (size_t)(ip - src), match_len), "lz4c: match starts >= 12 bytes before the end and leaves >= 5 literal bytes"); \
-  __CPROVER_assert(lit_len == (size_t)(ip - anchor) && (size_t)(anchor - src) + lit_len + match_len <= src_size, "lz4c: sequence covers anchor..ip+match_len inside the input");
+  __CPROVER_assert(lit_len == (size_t)(ip - anchor) && (size_t)(anchor - src) + lit_len + match_len <= src_size, "lz4c: sequence covers anchor..ip+match_len inside the input"); \
+  CQV_LZ4_INV_DONE
 #ifdef CQV_LZ4_PARSEBACK
 /* C10 parse-back of the length fields (plain stores, checked in place).  The format's length code for a
  * value v >= 15 is: nibble 15, then k bytes of 255, then one byte (v - 15 - 255k) that is < 255; the spec
@@ -77,7 +177,7 @@ void *memset(void *dst, int c, size_t n) {
   (((cqv_j < dst_capacity && cqv_j >= (size_t)__CPROVER_POINTER_OFFSET(cqv_op_m) && cqv_j < (size_t)__CPROVER_POINTER_OFFSET(op)) ==> dst[cqv_j] == 255) && \
    cqv_op_m[-2] == (uint8_t)(offset & 0xFF) && cqv_op_m[-1] == (uint8_t)(offset >> 8) && \
    (cqv_keep == token ==> *token == (uint8_t)((lit_len < 15 ? (lit_len << 4) : 0xF0) | 0x0F)))
-#define CQV_LZ4_LIT_DONE \
+#define CQV_LZ4_LIT_DONE const size_t cqv_e1 = (size_t)(op - token - 1); \
   __CPROVER_assert(lz4_spec_token_lit(*token) == (lit_len < 15 ? lit_len : 15), "lz4c: token high nibble is min(literal length, 15)"); \
   __CPROVER_assert(lit_len >= 15 || op == token + 1, "lz4c: no literal length bytes when literal length < 15"); \
   __CPROVER_assert(lit_len < 15 || (op >= token + 2 && op[-1] != 255 && (size_t)op[-1] + (((size_t)(op - token - 2)) << 8) - (size_t)(op - token - 2) == lit_len - 15), "lz4c: literal length bytes end with a byte < 255 and 255*k + last == literal length - 15"); \
@@ -90,7 +190,9 @@ void *memset(void *dst, int c, size_t n) {
   __CPROVER_assert((size_t)cqv_op_m[-2] + 256u * (size_t)cqv_op_m[-1] == offset, "lz4c: offset bytes are the 16-bit little-endian offset");
 #else
 #define CQV_LZ4_MATCH_DONE
+#define CQV_LZ4_LIT_DONE const size_t cqv_e1 = (size_t)(op - token - 1);
 #endif
+#define CQV_LZ4_LASTLIT_DONE const size_t cqv_e4 = (size_t)(op - dst) - cqv_o_last - 1;
 #define CQV_LZ4_LAST_BEGIN \
   __CPROVER_assert(src_size >= 13 && (size_t)(iend - anchor) >= LZ4_SPEC_LASTLITERALS, "lz4c: block ends with >= 5 literal bytes");
 
@@ -113,6 +215,47 @@ void h_lz4_count(void) {
   size_t r = lz4_count(buf + po, buf + mo, buf + lo);
   CQV_CANARY("lz4_count returns");
   if (r > 8) CQV_CANARY("lz4_count returns more than 8");
+}
+
+/* the arithmetic lemmas, for all arguments (loop free, SMT) */
+void h_lemma_space(void) {
+  size_t n = nondet_size_t(), cap = nondet_size_t(), B = nondet_size_t(), a = nondet_size_t(), l = nondet_size_t(),
+         T = nondet_size_t(), m = nondet_size_t(), mo = nondet_size_t();
+  __CPROVER_assume(LEM_SPACE_REQ(n, cap, B, a, l, T, m, mo));
+  CQV_CANARY("lemma space: requires satisfiable");
+  __CPROVER_assert(LEM_SPACE_ENS(n, cap, B, a, l, T, m, mo), "lemma space: a sequence fits below a bound-sized capacity");
+}
+void h_lemma_ext(void) {
+  size_t v = nondet_size_t(), c = nondet_size_t(), k = nondet_size_t(), rem = nondet_size_t();
+  __CPROVER_assume(LEM_EXT_REQ(v, c, k, rem));
+  CQV_CANARY("lemma ext: requires satisfiable");
+  __CPROVER_assert(LEM_EXT_ENS(v, c, k, rem), "lemma ext: number of 255 bytes <= v/255");
+}
+void h_lemma_inv(void) {
+  size_t a = nondet_size_t(), l = nondet_size_t(), m = nondet_size_t(), T = nondet_size_t(), e1 = nondet_size_t(),
+         r1 = nondet_size_t(), e2 = nondet_size_t(), r2 = nondet_size_t(), o2 = nondet_size_t();
+  __CPROVER_assume(LEM_INV_REQ(a, l, m, T, e1, r1, e2, r2, o2));
+  CQV_CANARY("lemma inv: requires satisfiable");
+  if (l >= 15 && m >= 19) CQV_CANARY("lemma inv: both lengths extended");
+  __CPROVER_assert(LEM_INV_ENS(a, l, m, T, e1, r1, e2, r2, o2), "lemma inv: size invariant preserved by one sequence");
+}
+void h_lemma_last(void) {
+  size_t n = nondet_size_t(), cap = nondet_size_t(), B = nondet_size_t(), a = nondet_size_t(), o = nondet_size_t(), q = nondet_size_t();
+  __CPROVER_assume(LEM_LAST_REQ(n, cap, B, a, o, q));
+  CQV_CANARY("lemma last: requires satisfiable");
+  __CPROVER_assert(LEM_LAST_ENS(n, cap, B, a, o, q), "lemma last: the last literal run fits below a bound-sized capacity");
+}
+void h_lemma_bound(void) {
+  size_t n = nondet_size_t(), cap = nondet_size_t(), B = nondet_size_t();
+  __CPROVER_assume(LEM_BOUND_REQ(n, cap, B));
+  CQV_CANARY("lemma bound: requires satisfiable");
+  __CPROVER_assert(LEM_BOUND_ENS(n, cap, B), "lemma bound: advertised capacity >= code bound");
+}
+void h_lemma_post(void) {
+  size_t n = nondet_size_t(), a = nondet_size_t(), o = nondet_size_t(), e = nondet_size_t(), r4 = nondet_size_t(), of = nondet_size_t();
+  __CPROVER_assume(LEM_POST_REQ(n, a, o, e, r4, of));
+  CQV_CANARY("lemma post: requires satisfiable");
+  __CPROVER_assert(LEM_POST_ENS(n, a, o, e, r4, of), "lemma post: total size <= n + n/255 + 16");
 }
 
 void h_lz4_compress(void) {
